@@ -80,6 +80,9 @@ def run_case(case, workdir):
     k = 0
     trivial_layout = all(scope.layout_is_trivial(l) for l in scope_layouts(desc))
     sels = list(selections(names, case["maxlen"]))
+    if len(names) >= 4 and not case.get("wide"):
+        # the ends of a consecutive run around a permuted interior, and the same with a gap
+        sels += [[names[0], names[2], names[1], names[3]], [names[1], names[3], names[2], names[0]]]
     if case.get("wide"):
         sels = [["all"], names[9:12] + names[0:1], names[2:12], [names[11]], names[::-1]]
     for sel in sels:
